@@ -245,6 +245,14 @@ func (sc *collection) doBuild(ctx context.Context) (Provider, error) {
 		}
 	}
 
+	if err := sc.validateDependencies(allDescriptors); err != nil {
+		return nil, &BuildError{
+			Phase:   "validation",
+			Details: "dependency validation failed",
+			Cause:   err,
+		}
+	}
+
 	// Phase 4: Create provider with fast ID generation
 	// Count void-return scoped descriptors for pre-allocation
 	voidCount := 0
@@ -755,6 +763,40 @@ func (r *collection) registerDescriptor(descriptor *Descriptor) error {
 
 	// Track in allDescriptors for efficient iteration
 	r.allDescriptors = append(r.allDescriptors, descriptor)
+
+	return nil
+}
+
+// validateDependencies ensures every required dependency of every service,
+// whatever its lifetime, is registered (or is one of the built-in injectables),
+// so that a missing dependency is reported at build time instead of at the
+// first resolution. Optional dependencies and groups may be left unprovided.
+func (c *collection) validateDependencies(descriptors []*Descriptor) error {
+	for _, descriptor := range descriptors {
+		if descriptor == nil {
+			continue
+		}
+
+		for _, dep := range descriptor.Dependencies {
+			if dep == nil || dep.Optional || dep.Group != "" {
+				continue
+			}
+
+			if dep.Key == nil {
+				if _, isBuiltin := reservedTypes[dep.Type]; isBuiltin {
+					continue
+				}
+			}
+
+			if _, ok := c.services[TypeKey{Type: dep.Type, Key: dep.Key}]; !ok {
+				return &ResolutionError{
+					ServiceType: dep.Type,
+					ServiceKey:  dep.Key,
+					Cause:       fmt.Errorf("required by %s: %w", formatType(descriptor.Type), ErrServiceNotFound),
+				}
+			}
+		}
+	}
 
 	return nil
 }
